@@ -171,7 +171,8 @@ Definition featureinfo (ly : layer) (origin : option bool) (q : treq) (x y z : Z
   match request_tile_coord ly false origin x y z with
   | None => (Err OutOfRange, [])
   | Some (x', y', l) =>
-    if negb (lqueryable ly) then (Err NotQueryable, [])
+    if negb (dimensions_ok ly (rdims q)) then (Err InvalidDimension, [])   (* checked_dimensions, as GetTile *)
+    else if negb (lqueryable ly) then (Err NotQueryable, [])
     else (Ok, [EInfo (tile_bbox (lg ly) x' y' l) (ri q) (rj q)])
   end.
 
